@@ -3,7 +3,7 @@
    Part 2: the footprint table: operations on distinct instances do not conflict when the
    structural facts are those of the repaired tree; with the pre-repair facts they do, and
    an explicit interleaving corrupts a result. *)
-From Verif Require Import Base Params Indep.
+From Verif Require Import Base Params Indep IndepFacts.
 Open Scope Z_scope.
 
 Section MachineProofs.
@@ -726,3 +726,16 @@ Proof.
   repeat (constructor; [repeat constructor; apply (threads_conflict_false cell cell_eqb cell_eqb_spec); reflexivity |]).
   constructor.
 Qed.
+
+(* ---------- the inventory of package-level state ---------- *)
+
+(* The package-level variables of the library are exactly the expected ones: eleven registries
+   (each with its mutex, each found locked), class singletons that are never assigned, one
+   constant map, the test hook.  A new package-level variable - the way hidden state shared by
+   all instances gets into the library - changes Params.package_vars and breaks this proof. *)
+Theorem package_state_inventory :
+  Params.package_vars = expected_package_vars /\
+  forallb (fun p => benign_kind (snd p)) Params.package_vars = true /\
+  forallb registry_is_locked Params.package_vars = true /\
+  length (filter is_registry Params.package_vars) = length Params.registry_locked.
+Proof. repeat split; vm_compute; reflexivity. Qed.
